@@ -31,6 +31,8 @@ def _seq(run, v, kind=None):
     if s is None:
         if isinstance(v, Lazy) and v.kind == 'dictview' and v.payload[0] == 'keys':
             s = SeqV('A', run.deref(v.payload[1]).keys, True)
+    if s is None and isinstance(v, Ref) and isinstance(run.deref(v), ListO) and not run.deref(v).items and kind:
+        s = SeqV(kind, {'A': T.aempty, 'R': T.rempty}[kind], True)      # the empty list
     if s is None or (kind and s.kind != kind):
         raise Unsupported('spec: expected %s sequence, got %r' % (kind, v))
     return s
@@ -880,3 +882,71 @@ def _arm_is_nan(run, a):
 @specfn('arm_is_inf')
 def _arm_is_inf(run, a):
     return BoolV(F('arm_is_inf', Arm, Bool)(a.term))
+
+
+def _alterm(v):
+    if isinstance(v, OpaqueV):
+        return v.term
+    raise Unsupported('spec: expected an abstract container')
+
+
+def _al_pred(name):
+    def f(run, v):
+        from . import libarraylike as AL
+        if isinstance(v, (SeqV, MatV)):
+            # an already converted value: an ndarray (a Python list when pylist)
+            is_list = bool(getattr(v, 'pylist', False))
+            return BoolV({'is_list': is_list, 'is_ndarray': not is_list}.get(name, False))
+        return BoolV(getattr(AL, name)(_alterm(v)))
+    return f
+
+
+for _nm in ('is_list', 'is_ndarray', 'is_series', 'is_dataframe'):
+    SPECFNS['al_' + _nm] = _al_pred(_nm)
+
+
+@specfn('al_ndim')
+def _al_ndim(run, v):
+    from . import libarraylike as AL
+    return Num(AL.ndim(_alterm(v)))
+
+
+@specfn('al_len')
+def _al_len(run, v):
+    from . import libarraylike as AL
+    return Num(AL.olen(_alterm(v)))
+
+
+@specfn('content_of')
+def _content_of(run, v):
+    """the elements of a container (abstract or converted)"""
+    from . import libarraylike as AL
+    if AL.is_al(v):
+        return AL.content(v)
+    return v
+
+
+@specfn('reals_of')
+def _reals_of(run, v):
+    from . import libarraylike as AL
+    if AL.is_al(v):
+        return SeqV('R', AL.as_rseq(v.term))
+    return v
+
+
+@specfn('matrix_of')
+def _matrix_of(run, v):
+    from . import libarraylike as AL
+    if AL.is_al(v):
+        return MatV(AL.as_mat(v.term))
+    return v
+
+
+@specfn('as_column')
+def _as_column(run, v):
+    return MatV(F('col1', RSeq, Mat)(_seq(run, v, 'R').term))
+
+
+@specfn('as_row')
+def _as_row(run, v):
+    return MatV(LC.row1(_seq(run, v, 'R').term))
